@@ -1076,7 +1076,7 @@ func (val Value) HasElement(elem Value) Value {
 	if !val.IsKnown() {
 		return unknownResult
 	}
-	if elem.Type() != DynamicPseudoType && val.Type().IsSetType() && val.Type().ElementType() != DynamicPseudoType {
+	if !elem.Type().HasDynamicTypes() && val.Type().IsSetType() && !val.Type().ElementType().HasDynamicTypes() {
 		// If we know the type of the given element and the element type of
 		// the set then they must match for the element to be present, because
 		// a set can't contain elements of any other type than its element type.
@@ -1100,6 +1100,11 @@ func (val Value) HasElement(elem Value) Value {
 		noMatchResult = unknownResult
 	}
 	if !ty.ElementType().Equals(elem.Type()) {
+		if ty.ElementType().HasDynamicTypes() || elem.Type().HasDynamicTypes() {
+			// The types may still turn out to be the same once the
+			// dynamically-typed parts are known.
+			return unknownResult
+		}
 		// A set can only contain an element of its own element type
 		return False
 	}
